@@ -184,6 +184,15 @@ def check_dir(ctx, case, t):
         ctx.feat("multi_dot_name")
     ctx.begin(case, nontrivial=any_match)
     assets = Assets(sdir, simfile=sf, filesystem=t.fs)
+    # a second loader object asked in the opposite order must give the same answers (no cross-kind state)
+    other = Assets(sdir, simfile=sf, filesystem=t.fs)
+    rev = {}
+    for k in reversed(KINDS):
+        try:
+            rev[k] = getattr(other, ATTR[k])
+        except Exception as e:
+            rev[k] = "raised " + type(e).__name__
+    answers = {}
     for k in KINDS:
         ctx.mon("asset_lookup")
         spec = case["props"].get(k)
@@ -237,6 +246,12 @@ def check_dir(ctx, case, t):
         ctx.mon("repeat_read")
         again = getattr(assets, ATTR[k])
         ctx.expect(again == got, f"asset:{k}:second-read-differs", again=again, **detail)
+        answers[k] = got
+        # with several matching entries either may be returned, but then both must be acceptable; when the
+        # acceptable set is a single path the two loaders must agree
+        acc = set(named) if named else set(loose)
+        if len(acc) <= 1 and rev.get(k) != got:
+            ctx.violation(f"asset:{k}:answer-depends-on-the-order-of-questions", dict(detail, asked_first=got, asked_in_reverse_order=rev.get(k)))
 
 
 def check_pack(ctx, case, t):
